@@ -13,9 +13,12 @@ from lib import core
 
 def cmd_setup(_):
     t = core.build_harness()
-    for d in sorted(os.listdir(core.ROOT)):
-        if d.startswith("harness_") and os.path.exists(os.path.join(core.ROOT, d, "go.mod")):
-            t += core.build_harness(d)
+    # extra harness modules of the properties claimed in MANIFEST.json
+    claimed = [c["property_id"] for c in json.load(open(os.path.join(core.ROOT, "MANIFEST.json")))["checks"]]
+    for pid in claimed:
+        mod = importlib.import_module("props." + pid.lower())
+        for extra in getattr(mod, "HARNESSES", []):
+            t += core.build_harness(extra)
     ok, tail = core.coq_make()
     print("harness built in %.1fs; coq make %s" % (t, "ok" if ok else "FAILED"))
     if not ok:
